@@ -444,6 +444,13 @@ func loadKnown(id string) map[string]string {
 	if err != nil {
 		return out
 	}
+	// VERIF_KNOWN_EXTRA: an additional findings file, used only while triaging
+	// (never set by the registered commands).
+	if extra := os.Getenv("VERIF_KNOWN_EXTRA"); extra != "" {
+		if eb, err := os.ReadFile(extra); err == nil {
+			b = append(append(b, '\n'), eb...)
+		}
+	}
 	for _, line := range strings.Split(string(b), "\n") {
 		line = strings.TrimSpace(line)
 		if !strings.HasPrefix(line, "finding: property="+id+" key=") {
